@@ -32,6 +32,8 @@ var c02Blocks = []string{
 	`<p>%a <span style="color:red; visibility:hidden">%h</span> <font style="margin:0;display:none" color="red">%h</font></p>`,
 	`<figure><img src="g.png"><figcaption>%a<br>%b <span hidden>%h</span><div>%c</div></figcaption></figure>`,
 	`<p>%a x<b>%b</b> <i>y</i>%c</p>`,
+	`<div>z%a</div><table><caption><b>%a</b> <i>%b</i></caption><thead><tr><th>h</th><th>h</th></tr></thead><tr><td><b>%c</b> <i>x%a</i></td><td><a href="/q">y%b</a> <span>y%c</span></td></tr></table>`,
+	`<figure><a href="/f"><img src="h.png"><figcaption>%a %b</figcaption></a></figure><figure><a href="/g"><img src="k.png"> <span>%c</span></a></figure>`,
 	`<div>%a <table><caption>%b</caption><thead><tr><th>h</th></tr></thead><tr><td>%c</td></tr></table> z%a</div>`,
 }
 
@@ -49,6 +51,8 @@ var c02Visible = [][]string{
 	{"a"},
 	{"a", "b", "c"},
 	{"a", "xb", "yc"},
+	{"za", "a", "b", "c", "xa", "yb", "yc"},
+	{"a", "b", "c"},
 	{"a", "b", "c", "za"},
 }
 
